@@ -186,5 +186,167 @@ theorem lemma1_probShape {pop : Option Var} {ch pa : List Var} {H D : List Name}
                   intro hm
                   exact hvp (List.mem_singleton.mp hm ▸ hn)
 
+/-! ### the two ways IDENTIFY obtains `Q[A]` -/
+
+/-- Lemma 3 applied to an expression (`Fraction | Product | Sum`, or any expression in the `A = C` case) -/
+theorem ancestralQ_inv (hM : M.Compatible G) (hrank : G.Ranked) (σ' : Val) (topo A T : List Name)
+    (htnd : topo.Nodup) (hAT : ∀ a ∈ A, a ∈ T) (hT : ∀ t ∈ T, t ∈ G.nodes) (hanc : AncestralIn G A T)
+    (q r : Expr) (hq : ∀ σ, den (M.env G) σ' q σ = M.Q (topo.filter (· ∈ T)) σ)
+    (h : ancestralQ A T q topo = .ok r) (σ : Val) :
+    den (M.env G) σ' r σ = M.Q (topo.filter (· ∈ A)) σ := by
+  rw [den_ancestralQ (M.env G) σ' htnd h, funext hq, env_card]
+  exact congrFun (sumVars_Q_anc hM hrank A T topo hAT hT hanc htnd) σ
+
+/-- the probability of the ancestral set built from a probability `P_w(T | Z)` -/
+theorem ancestralProb_inv (hM : M.Compatible G) (hG : G.WF) (hrank : G.Ranked) (σ' : Val) (topo A T : List Name)
+    (htnd : topo.Nodup) (hAT : ∀ a ∈ A, a ∈ T) (hT : ∀ t ∈ T, t ∈ G.nodes) (hanc : AncestralIn G A T)
+    (pop : Option Var) (ch pa : List Var) (qA : Expr)
+    (hshape : ProbShape G.nodes (.prob pop ch pa) (topo.filter (· ∈ T)))
+    (hq : ∀ σ, den (M.env G) σ' (.prob pop ch pa) σ = M.Q (topo.filter (· ∈ T)) σ)
+    (h : ancestralProb pop ch pa (topo.filter (· ∈ A)) = .ok qA) :
+    (∀ σ, den (M.env G) σ' qA σ = M.Q (topo.filter (· ∈ A)) σ) ∧
+      ProbShape G.nodes qA (topo.filter (· ∈ A)) := by
+  obtain ⟨w, hs⟩ := shape_of_probShape hshape
+  have hoAne : topo.filter (· ∈ A) ≠ [] := by
+    intro h0
+    rw [h0] at h
+    simp [ancestralProb] at h
+  have hAH : ∀ a ∈ topo.filter (· ∈ A), a ∈ topo.filter (· ∈ T) := by
+    intro a ha
+    have := List.mem_filter.mp ha
+    exact List.mem_filter.mpr ⟨this.1, by simpa using hAT a (by simpa using this.2)⟩
+  constructor
+  · intro σ
+    have := den_ancestralProb hM hG σ' (R := topo.filter (fun v => v ∈ T ∧ v ∉ A)) hs
+      (fun x hx => hT x (by simpa using (List.mem_filter.mp hx).2)) (htnd.filter _) hoAne (htnd.filter _)
+      (by
+        intro x
+        simp only [List.mem_filter, decide_eq_true_eq]
+        constructor
+        · rintro ⟨hxt, hx⟩
+          by_cases hxA : x ∈ A
+          · exact Or.inl ⟨hxt, hxA⟩
+          · exact Or.inr ⟨hxt, hx, hxA⟩
+        · rintro (⟨hxt, hx⟩ | ⟨hxt, hx, _⟩)
+          · exact ⟨hxt, hAT x hx⟩
+          · exact ⟨hxt, hx⟩)
+      (by
+        intro x hx hx'
+        have h1 := (List.mem_filter.mp hx).2
+        have h2 := (List.mem_filter.mp hx').2
+        simp only [decide_eq_true_eq] at h1 h2
+        exact h1.2 h2)
+      h
+    rw [this, funext hq]
+    exact congrFun (sumVars_Q_anc hM hrank A T topo hAT hT hanc htnd) σ
+  · obtain ⟨c, P', rfl, hs', _, _⟩ := ancestralProb_probShape hs (htnd.filter _) hAH h
+    exact ⟨w, hs'.perm, hs'.world, hs'.ivs, hs'.parents⟩
+
+/-! ### the recursion -/
+
+/-- **IDENTIFY is sound** (fuel form): if the carried expression denotes `Q[T]` and the call returns an
+expression, that expression denotes `Q[C]`. -/
+theorem identifyAux_sound (hM : M.Compatible G) (hG : G.WF) (hrank : G.Ranked) (σ' : Val)
+    (topo : List Name) (htnd : topo.Nodup) (hord : TopoOrdered G topo) (C : List Name) :
+    ∀ (fuel : Nat) (T : List Name) (q : Expr), (∀ t ∈ T, t ∈ G.nodes) →
+      ProbShape G.nodes q (topo.filter (· ∈ T)) →
+      (∀ σ, den (M.env G) σ' q σ = M.Q (topo.filter (· ∈ T)) σ) →
+      ∀ e, identifyAux G topo C fuel T q = .ok (some e) →
+      ∀ σ, den (M.env G) σ' e σ = M.Q (topo.filter (· ∈ C)) σ := by
+  intro fuel
+  induction fuel with
+  | zero => intro T q _ _ _ e h; simp [identifyAux] at h
+  | succ fuel ih =>
+    intro T q hT hshape hq e h σ
+    simp only [identifyAux] at h
+    split at h
+    · cases h
+    · rename_i hCT
+      split at h
+      · cases h
+      · split at h
+        · cases h
+        · split at h
+          · cases h
+          · have hCT' : ∀ c ∈ C, c ∈ T := subset'_iff.mp (by simpa using hCT)
+            cases hA : (G.subgraph T).ancestorsInclusive C with
+            | error err => rw [hA] at h; simp [bind, Except.bind] at h
+            | ok A =>
+              rw [hA] at h
+              simp only [bind, Except.bind] at h
+              obtain ⟨hCA, hAT, hanc⟩ := anc_facts G C T A hCT' hA
+              split at h
+              · -- A = C: Lemma 3
+                rename_i hAC
+                cases hr : ancestralQ A T q topo with
+                | error err => rw [hr] at h; simp at h
+                | ok r =>
+                  rw [hr] at h
+                  simp only [pure, Except.pure] at h
+                  cases h
+                  rw [ancestralQ_inv hM hrank σ' topo A T htnd hAT hT hanc q e hq hr σ,
+                    filter_congr_mem (seteq'_iff.mp hAC)]
+              · split at h
+                · simp [pure, Except.pure] at h
+                · split at h
+                  · -- C ⊊ A ⊊ T: recurse on the district of G[A] that contains C
+                    split at h
+                    · cases h
+                    · rename_i T' hfind
+                      have hT'mem : T' ∈ (G.subgraph (topo.filter (· ∈ A))).districts :=
+                        List.mem_of_find?_eq_some hfind
+                      obtain ⟨hT'nd, hT'A, hT'closed, _⟩ := district_facts G _ T' hT'mem
+                      have hLA : ∀ v ∈ topo.filter (· ∈ A), v ∈ G.nodes := by
+                        intro v hv
+                        exact hT v (hAT v (by simpa using (List.mem_filter.mp hv).2))
+                      -- the expression for Q[A]
+                      have hqA : ∀ qA, ancestralExpr q A T (topo.filter (· ∈ A)) topo = .ok qA →
+                          (∀ σ, den (M.env G) σ' qA σ = M.Q (topo.filter (· ∈ A)) σ) ∧
+                            ProbShape G.nodes qA (topo.filter (· ∈ A)) := by
+                        intro qA hqA
+                        unfold ancestralExpr at hqA
+                        split at hqA
+                        · rename_i hfps
+                          refine ⟨ancestralQ_inv hM hrank σ' topo A T htnd hAT hT hanc q qA hq hqA, ?_⟩
+                          exact probShape_of_not_prob (sumSafe_not_prob (isProb_of_fps hfps) hqA)
+                        · split at hqA
+                          · exact ancestralProb_inv hM hG hrank σ' topo A T htnd hAT hT hanc _ _ _ qA hshape hq hqA
+                          · cases hqA
+                      cases hqA' : ancestralExpr q A T (topo.filter (· ∈ A)) topo with
+                      | error err => rw [hqA'] at h; simp at h
+                      | ok qA =>
+                        rw [hqA'] at h
+                        simp only at h
+                        obtain ⟨hdenA, hshapeA⟩ := hqA qA hqA'
+                        cases hc : computeCFactor T' A qA topo with
+                        | error err => rw [hc] at h; simp at h
+                        | ok qT' =>
+                          rw [hc] at h
+                          simp only at h
+                          have hT'sub : ∀ v ∈ T', v ∈ topo.filter (· ∈ A) := hT'A
+                          have hdenT' : ∀ σ, den (M.env G) σ' qT' σ = M.Q T' σ :=
+                            computeCFactor_sound hM hG hrank σ' topo A htnd hord hLA T' hT'nd hT'sub hT'closed
+                              qA qT' hshapeA hdenA hc
+                          have hT'topo : ∀ v ∈ T', v ∈ topo := fun v hv => (List.mem_filter.mp (hT'A v hv)).1
+                          have hperm : (topo.filter (· ∈ T')).Perm T' := filter_perm_of_nodup hT'nd htnd hT'topo
+                          apply ih T' qT' (fun t ht => hLA t (hT'A t ht)) _ _ e h σ
+                          · -- shape of Q[T'] when it is a probability
+                            unfold computeCFactor at hc
+                            simp only at hc
+                            split at hc
+                            · rename_i hfps
+                              exact probShape_of_not_prob (lemma4_not_prob (isProb_of_fps hfps) hc)
+                            · split at hc
+                              · cases hc
+                              · rename_i hprob
+                                cases qA with
+                                | prob pop ch pa =>
+                                  obtain ⟨w, hs⟩ := shape_of_probShape hshapeA
+                                  exact lemma1_probShape hs hLA hT'sub hT'nd hc _ hperm.symm
+                                | _ => simp [isProb] at hprob
+                          · intro τ
+                            rw [hdenT' τ, Scm.Q_perm M hperm]
+                  · cases h
+
 end TianIdentify
 end Y0
